@@ -1,3 +1,4 @@
+import Soa.Extracted.Skel
 import Soa.Lemmas.Positions
 import Batteries.Data.List.Perm
 import Soa.Model.Pinned
@@ -249,6 +250,63 @@ theorem nthBack_is_iterated_nextBack (w : Win) (k : Nat) : View.nthBack w k = Vi
 theorem last_is_nextBack (w : Win) : (View.lastOf w).1 = (View.nextBack w).1 ∧ (View.lastOf w).2.l = 0 := by
   unfold View.lastOf View.nextBack
   by_cases h : w.l = 0 <;> simp [h]
+
+/-! ## internal iteration: `fold` / `for_each` is `next` until `None`, `rfold` / `rev().for_each` is `next_back` until `None` -/
+
+/-- what std's default `fold` visits: `next()` until it answers `None` (fuel = the remaining length suffices) -/
+def foldVisits : Nat → Win → List Nat
+  | 0, _ => []
+  | f + 1, w => match View.next w with
+    | (some p, w') => p :: foldVisits f w'
+    | (none, _) => []
+
+/-- what std's default `rfold` visits -/
+def rfoldVisits : Nat → Win → List Nat
+  | 0, _ => []
+  | f + 1, w => match View.nextBack w with
+    | (some p, w') => p :: rfoldVisits f w'
+    | (none, _) => []
+
+/-- `fold` visits the remaining positions front to back, each once -/
+theorem fold_visits : ∀ (f : Nat) (w : Win), w.l ≤ f → foldVisits f w = List.range' w.s w.l
+  | 0, w, h => by
+    have : w.l = 0 := by omega
+    simp [foldVisits, this]
+  | f + 1, w, h => by
+    unfold foldVisits View.next
+    by_cases h0 : w.l = 0
+    · simp [h0]
+    · simp only [h0, ↓reduceIte]
+      rw [fold_visits f ⟨w.s + 1, w.l - 1⟩ (by simp; omega)]
+      obtain ⟨m, hm⟩ : ∃ m, w.l = m + 1 := ⟨w.l - 1, by omega⟩
+      simp [hm, List.range'_succ]
+
+/-- `rfold` (what `rev().for_each(..)`, `rev().fold(..)`, `rev().last()` run) visits them back to front -/
+theorem rfold_visits : ∀ (f : Nat) (w : Win), w.l ≤ f → rfoldVisits f w = (List.range' w.s w.l).reverse
+  | 0, w, h => by
+    have : w.l = 0 := by omega
+    simp [rfoldVisits, this]
+  | f + 1, w, h => by
+    unfold rfoldVisits View.nextBack
+    by_cases h0 : w.l = 0
+    · simp [h0]
+    · simp only [h0, ↓reduceIte]
+      rw [rfold_visits f ⟨w.s, w.l - 1⟩ (by simp; omega)]
+      obtain ⟨m, hm⟩ : ∃ m, w.l = m + 1 := ⟨w.l - 1, by omega⟩
+      simp only [hm, Nat.add_sub_cancel]
+      rw [List.range'_concat]
+      simp
+
+/-- the generated iterators implement `next`, `size_hint`, `next_back` and `len` and **nothing else** of the iterator
+    traits: every other method (`nth`, `nth_back`, `fold`, `rfold`, `last`, `count`, …) is std's default, defined from
+    these — which is what `nth_is_iterated_next`, `fold_visits`, `rfold_visits` … describe.  Read from the templates the
+    translator recovered from /repo on this run: an override added to either iterator makes this false. -/
+theorem iterator_methods :
+    ((Soa.Extracted.skAll.filter (fun f => f.owner == "PIter<'a>")).map (fun f => (f.trait_, f.name))) =
+      [("<Iterator>", "next"), ("<Iterator>", "size_hint"), ("<DoubleEndedIterator>", "next_back"), ("<ExactSizeIterator>", "len")] ∧
+    ((Soa.Extracted.skAll.filter (fun f => f.owner == "PIterMut<'a>")).map (fun f => (f.trait_, f.name))) =
+      [("<Iterator>", "next"), ("<Iterator>", "size_hint"), ("<DoubleEndedIterator>", "next_back"), ("<ExactSizeIterator>", "len")] := by
+  decide
 
 /-- **text pin**: the generated functions this property's hand-written model describes have, in
     /repo today, exactly the text the model was written from (`Soa/Model/Pinned.lean`) -/
